@@ -1,5 +1,6 @@
 """C04 — a worker dying mid-task yields WorkerLostError for exactly its job."""
 import ast
+import re
 
 from ..model import walk_own, dotted
 from .. import q
@@ -130,6 +131,39 @@ def r04_4(ctx):
         r = cfg.reach([cfg.entry.id], block_edges=exited, include_src=True)
         ctx.ob('R04.4', 'reaper:cleaned-holds-only-exited-workers', okdefs and bool(exited) and n.id not in r, je, n,
                'cleaned[...] is reachable only through `popen is None` or `exitcode is not None`')
+
+
+def r04_12(ctx):
+    ctx.rule('R04.12', 'a job is reported as Terminated (at once, no grace period) only when its worker was stopped by '
+                       'terminate_job: the flag the reaper tests is set nowhere else (shrink() and the time limits '
+                       'stop workers too, and their jobs are lost jobs)', floor=1)
+    m = ctx.model
+    je = m.func('pool:Pool._join_exited_workers')
+    term = [(n, c) for (n, c) in q.calls(je, lambda t: t.endswith('._set_terminated'))]
+    q.need(term, 'the reaper never reports Terminated')
+    flags = set()
+    for (n, c) in term:
+        for (t, p) in q.guards_norm(je, n):
+            for mm in re.finditer(r"getattr\(\w+, '(\w+)', False\)|\b\w+\.(_\w*terminat\w*)\b", t):
+                flags.add(mm.group(1) or mm.group(2))
+    q.need(flags, 'the reaper\'s Terminated arm is not guarded by a flag of the process object')
+    for fl in sorted(flags):
+        writers = []
+        for qn, fi in sorted(m.funcs.items()):
+            for n in walk_own(fi.node):
+                if isinstance(n, ast.Assign):
+                    for t in n.targets:
+                        if isinstance(t, ast.Attribute) and t.attr == fl and isinstance(n.value, ast.Constant) and \
+                                n.value.value is True:
+                            writers.append((fi, n))
+        ok = bool(writers) and all(fi.qual == 'pool:Pool.terminate_job' for (fi, n) in writers)
+        bad = [(fi, n) for (fi, n) in writers if fi.qual != 'pool:Pool.terminate_job']
+        ctx.ob('R04.12', 'reaper:Terminated-only-for-terminate_job(%s)' % fl, ok, bad[0][0] if bad else je,
+               bad[0][1] if bad else term[0][1],
+               '`%s` is set only by Pool.terminate_job' % fl if ok else
+               '`%s` is also set by %s: a job whose worker was stopped that way (shrink, controlled termination) is '
+               'failed at once as Terminated instead of WorkerLostError after its grace period'
+               % (fl, bad[0][0].qual if bad else '?'))
 
 
 def r04_9(ctx):
@@ -315,6 +349,7 @@ def run(ctx):
     r04_6(ctx)
     r04_7(ctx)
     r04_9(ctx)
+    r04_12(ctx)
     # the reaper, the lost-job bookkeeping and the status naming run in the supervisor thread, where an escaped
     # exception ends the host process: their lookup-error handlers must still match the lookups they guard
     from .generic import handlers_match_lookups
